@@ -131,6 +131,17 @@ func c06Case(r *evid.Run, tier string, idx int, g *rng.R) {
 			if !ok || !refeval.SameNumber(f, want, true) {
 				viol("arith/"+o.op, fmt.Sprintf("%s %s %s = %s, expected %s", showDouble(p[0]), o.op, showDouble(p[1]), bridge.Show(got), showDouble(want)))
 			}
+			// the typed entry point returns the same number (NaN, infinities and -0 included) and no error
+			if math.IsNaN(want) || math.IsInf(want, 0) || want == 0 || g.P(10) {
+				if gr, berr := Build(xast.String(e)); berr == nil {
+					fn, nerr := xsel.ExecAsNumber(w.m.Root, gr, append(append([]xsel.ContextApply{}, w.opts...), binds...)...)
+					r.Eval(1)
+					r.Tab("operator", "ExecAsNumber:"+o.op, 1)
+					if nerr != nil || !refeval.SameNumber(fn, want, true) {
+						viol("arith/ExecAsNumber/"+o.op, fmt.Sprintf("ExecAsNumber(%s %s %s) = %s (%v), expected %s", showDouble(p[0]), o.op, showDouble(p[1]), showDouble(fn), errStr(nerr), showDouble(want)))
+					}
+				}
+			}
 		}
 		got, _, err := w.libEval(d.Root, xast.String(xast.Neg{X: x}), binds...)
 		r.Eval(1)
